@@ -212,6 +212,115 @@ theorem second_emission_repeats (env : Env) (ns : List Node) (st st' : EmitState
   rw [this]
   exact h
 
+/-! ### …and `resolver_reset()` is enough when the program starts with `*=` -/
+
+/-- forget the ghost trace -/
+def noTrace (s : EmitState) : EmitState := { s with trace := [] }
+
+/-- the ghost trace never influences anything else: one step -/
+theorem emitStep_noTrace (env : Env) (n : Node) (st : EmitState) :
+    (emitStep env n st).map noTrace = (emitStep env n (noTrace st)).map noTrace := by
+  unfold emitStep
+  simp only [noTrace]
+  cases emitNode env n st.r with
+  | error e => rfl
+  | ok p =>
+    obtain ⟨r1, bs⟩ := p
+    simp only []
+    by_cases hb : bs.isEmpty = true
+    · simp only [hb, ↓reduceIte]
+      cases hc : n.isCodePos <;> cases hbl : st.block.isEmpty <;> cases n <;> simp_all [noTrace, Except.map, Node.isCodePos]
+    · simp only [hb]
+      cases addrAdd r1.reloc bs.length with
+      | error e => rfl
+      | ok a' =>
+        simp only []
+        cases hc : n.isCodePos <;> cases hbl : (st.block ++ bs).isEmpty <;> cases n <;> simp_all [noTrace, Except.map, Node.isCodePos]
+
+theorem emitLoop_noTrace (env : Env) : ∀ (ns : List Node) (st : EmitState),
+    (emitLoop env ns st).map noTrace = (emitLoop env ns (noTrace st)).map noTrace := by
+  intro ns
+  induction ns with
+  | nil => intro st; simp [emitLoop, Except.map, noTrace]
+  | cons n ns ih =>
+    intro st
+    have hs := emitStep_noTrace env n st
+    simp only [emitLoop]
+    cases h1 : emitStep env n st with
+    | error e =>
+      rw [h1] at hs
+      cases h2 : emitStep env n (noTrace st) with
+      | error e2 => rw [h2] at hs; simp only [Except.map, Except.error.injEq] at hs; subst hs; rfl
+      | ok s2 => rw [h2] at hs; simp [Except.map] at hs
+    | ok s1 =>
+      rw [h1] at hs
+      cases h2 : emitStep env n (noTrace st) with
+      | error e2 => rw [h2] at hs; simp [Except.map] at hs
+      | ok s2 =>
+        rw [h2] at hs
+        simp only [Except.map, Except.ok.injEq] at hs
+        simp only []
+        rw [ih s1, ih s2, hs]
+
+/-- a `*=` does not look at where the resolver was: with an empty current block, the step from a resolver whose run
+    address is anything gives the same state (ghost trace apart) -/
+theorem emitStep_codePos_reloc (env : Env) (e : PExpr) (info : Tok) (st : EmitState) (x : Address) (hb : st.block = []) :
+    (emitStep env (.codePos e info) { st with r := { st.r with reloc := x } }).map noTrace =
+      (emitStep env (.codePos e info) st).map noTrace := by
+  have hv : getValue env { st.r with reloc := x } e info = getValue env st.r e info := rfl
+  unfold emitStep
+  simp only [emitNode, hv]
+  cases getValue env st.r e info with
+  | error er => rfl
+  | ok v =>
+    simp only []
+    have hsp : Resolver.setPosition { st.r with reloc := x } v = st.r.setPosition v := by
+      unfold Resolver.setPosition
+      have hg : Resolver.getBus { st.r with reloc := x } = st.r.getBus := rfl
+      rw [hg]
+    rw [hsp]
+    cases st.r.setPosition v with
+    | none => rfl
+    | some r1 =>
+      simp [noTrace, Except.map, Node.isCodePos, hb]
+
+/-- **`resolver_reset()` then `emit` repeats the emission of a program that starts with `*=`**: for every node list
+    that begins with a position node, emitted from a reset resolver (`pc`, `current_scope`, `last_used_scope` at their
+    initial values) with no open block: emitting it again after `resolver_reset()` — which leaves the run address where
+    the first emission ended — gives the same `write_block` calls, the same final resolver, the same open block (the
+    ghost trace apart), or fails the same way. -/
+theorem second_emission_after_reset (env : Env) (e : PExpr) (info : Tok) (ns : List Node) (st st' : EmitState)
+    (h : emitLoop env (.codePos e info :: ns) st = .ok st')
+    (h0 : st.r.pc = 0 ∧ st.r.current = 0 ∧ st.r.lastUsed = 0) (hb : st.block = []) :
+    (emitLoop env (.codePos e info :: ns) { st with r := resolverReset st'.r }).map noTrace = .ok (noTrace st') := by
+  have hp := emitLoop_posOnly env _ st st' h
+  have hr : resolverReset st'.r = { st.r with reloc := st'.r.reloc } := by
+    unfold PosOnly at hp
+    rw [hp]
+    unfold resolverReset
+    obtain ⟨h1, h2, h3⟩ := h0
+    cases hst : st.r
+    rw [hst] at h1 h2 h3
+    simp only at h1 h2 h3
+    subst h1 h2 h3
+    rfl
+  rw [hr]
+  have hstep := emitStep_codePos_reloc env e info st st'.r.reloc hb
+  simp only [emitLoop] at h ⊢
+  cases h1 : emitStep env (.codePos e info) st with
+  | error er => rw [h1] at h; cases h
+  | ok s1 =>
+    rw [h1] at h hstep
+    simp only [] at h
+    cases h2 : emitStep env (.codePos e info) { st with r := { st.r with reloc := st'.r.reloc } } with
+    | error er => rw [h2] at hstep; simp [Except.map] at hstep
+    | ok s2 =>
+      rw [h2] at hstep
+      simp only [Except.map, Except.ok.injEq] at hstep
+      simp only []
+      rw [emitLoop_noTrace env ns s2, hstep, ← emitLoop_noTrace env ns s1, h]
+      rfl
+
 /-- non-vacuity: an emission that returns and really moves position fields (a scope entered and left) -/
 example : ((emitLoop (⟨fun _ => none, []⟩ : Env) [.scopeEnter, .scopePop]
       { (default : EmitState) with r := { (default : Resolver) with scopes := #[{ kind := .plain, parent := none }, { kind := .plain, parent := some 0 }] } }).toOption.map
